@@ -51,7 +51,7 @@ pub open spec fn compacted(o: ClusterStore, n: ClusterStore) -> bool {
 }
 pub struct MetaStoreMigrate<'a> { pub store: &'a mut MetaStore }
 impl<'a> MetaStoreMigrate<'a> {
-    // out of reach (iter_mut().flatten()): assumed contract = RangeList::compact applied to every range list
+    // proved in unit compact_slots (there with covers(..) in place of the uninterpreted rl_covers and the precondition bound < usize::MAX)
     #[verifier::external_body] fn compact_slots(cluster: &mut ClusterStore) ensures compacted(*old(cluster), *final(cluster)) { unimplemented!() }
 '''
 
@@ -73,7 +73,7 @@ def build(U):
     f.after('Self::compact_slots(cluster);', '        proof { assert(assigned(*old(cluster), mid, migration_slots@, migration_slots@.len() as int) && compacted(mid, *cluster)); }')
     U.add_fn(f)
     U.add('}\n} // verus!\nfn main() {}\n')
-    U.trust('compact_slots by assumed contract (RangeList::compact on every range list: coverage-preserving, structure unchanged); derived Clone structural')
+    U.trust('compact_slots through its contract (every range list keeps its coverage, structure unchanged): proved in unit compact_slots under the precondition that every range bound is < usize::MAX, which is not established here; derived Clone structural')
 
 MUST_FAIL = '''
 proof fn must_fail_assigned_not_trivial(o: ClusterStore, n: ClusterStore, adds: Seq<MigrationSlots>)
